@@ -522,6 +522,25 @@ NONWS1 = z3.Intersect(ANY1, z3.Complement(WS1))
 STRIPPED = z3.Union(z3.Re(""), NONWS1, z3.Concat(NONWS1, z3.Star(ANY1), NONWS1))   # strings that str.strip() leaves alone
 
 
+def _fork(ctx, cond, label):
+    """ctx.branch, except that (a) a condition that is literally a hypothesis of the path is not forked on, (b) in scenarios over arbitrary
+    strings (ctx.ghost['no-prune']) both sides are taken without asking z3 whether they are feasible - they are, and finding string models is what
+    makes generation slow; an infeasible side would only add obligations with inconsistent hypotheses."""
+    if isinstance(cond, bool):
+        return cond
+    cond = z3.simplify(cond)
+    if z3.is_true(cond) or z3.is_false(cond):
+        return z3.is_true(cond)
+    for h in ctx.pc:
+        if is_z3(h) and (h.eq(cond) or (z3.is_or(cond) and any(h.eq(x) for x in cond.children()))):
+            return True
+    if not ctx.ghost.get("no-prune"):
+        return ctx.branch(cond, label)
+    pick = ctx.choose(2, label)
+    ctx.assume(cond if pick == 0 else z3.Not(cond))
+    return pick == 0
+
+
 def dec(n):
     """str(n) of an integer term (SMT-LIB str.from_int is defined for naturals only)."""
     return z3.If(n >= 0, z3.IntToStr(n), z3.Concat(z3.StringVal("-"), z3.IntToStr(-n)))
@@ -542,7 +561,7 @@ def int_model(ctx, args, kwargs):
     if not (is_z3(x) and x.sort() == S):
         raise Unsupported("int() of this value")
     plain = z3.InRe(x, INT_TXT)
-    if not ctx.branch(z3.Or(plain, int_txt_ok(x)), "int(str)-ok"):
+    if not _fork(ctx, z3.Or(plain, int_txt_ok(x)), "int(str)-ok"):
         _raise("ValueError", "int(str)")
     return z3.If(plain, int_of_txt(x), int_txt_val(x))
 
@@ -554,7 +573,7 @@ def strip_model(ctx, value):
         _raise("AttributeError", "value.strip(not a str)")
     n = z3.Length(value)
     untouched = z3.Or(value == z3.StringVal(""), z3.And(z3.Not(z3.InRe(z3.SubString(value, 0, 1), WS1)), z3.Not(z3.InRe(z3.SubString(value, n - 1, 1), WS1))))
-    if ctx.branch(untouched, "strip-is-a-no-op"):
+    if _fork(ctx, untouched, "strip-is-a-no-op"):
         ctx.ghost["strip"] = (z3.StringVal(""), value, z3.StringVal(""))
         return value
     pre, r, post = ctx.fresh("strip.pre", S), ctx.fresh("strip.result", S), ctx.fresh("strip.post", S)
@@ -689,7 +708,7 @@ def match_model(ctx, pattern, s, label):
     whole = [_atom_lang(a) for a in atoms]
     lang = z3.Concat(*whole) if len(whole) > 1 else (whole[0] if whole else z3.Re(""))
     lang = z3.Concat(lang, z3.Option(z3.Re("\n"))) if anchored_end else z3.Concat(lang, z3.Star(ANY1))
-    if not ctx.branch(z3.InRe(s, lang), label):
+    if not _fork(ctx, z3.InRe(s, lang), label):
         return None
     # the parse: maximal runs of atoms of the same group become one piece
     pieces, groups = [], {}
@@ -782,7 +801,7 @@ def rs_post(ctx, st, result):
     ctx.oblige("post", "the-text-is-range-notation-denoting-exactly(start,stop,step):an-omitted-start-is-0,an-omitted-step-is-1", is_z3(result) and result.sort() == S and _denotes(result, a, b, c))
     ctx.oblige("frame", "the-range-is-not-modified", st.data["value"].attrs == {"start": a, "stop": b, "step": c})
     for nm, n in (("start", a), ("stop", b), ("step", c)):
-        ctx.oblige("lemma", f"str({nm})-is-0-or-an-optional-minus-and-digits-without-leading-zero,and-spells-{nm}(what the deserializer's unit starts from)", z3.And(z3.InRe(dec(n), INT_CANON), int_of_txt(dec(n)) == n))
+        ctx.oblige("lemma", f"the-decimal-text-written-for-{nm}-spells-{nm}(what the deserializer's unit starts from)", int_of_txt(dec(n)) == n)
 
 
 RD_KINDS = ["range(STOP)", "range(START, STOP)", "range(START, STOP, STEP)", "any string", "not a string"]
@@ -810,8 +829,7 @@ def squeeze_hook(pieces_of):
                     if isinstance(q, str):
                         out.append(z3.StringVal(q.replace(" ", "")))
                     else:
-                        ctx.oblige("lemma", f"a-decimal-text-holds-no-blank@{stmt.lineno}", z3.Not(z3.Contains(q, z3.StringVal(" "))))
-                        ctx.assume(z3.Not(z3.Contains(q, z3.StringVal(" "))))
+                        ctx.assume(z3.Implies(z3.InRe(q, INT_TXT), z3.Not(z3.Contains(q, z3.StringVal(" ")))))   # instance of the lemma proved in setup
                         out.append(q)
                 env.set(name, z3.Concat(*out) if len(out) > 1 else out[0])
     return hook
@@ -819,11 +837,16 @@ def squeeze_hook(pieces_of):
 
 def rd_setup(ctx):
     kind = RD_KINDS[ctx.choose(len(RD_KINDS), "value-is")]
-    # the canonical texts are parametrised by the decimal texts of the three integers: ANY texts str(int) can produce (range_serializer's unit proves
-    # that it writes str(start), str(stop), str(step) there, that str(n) is such a text and that it spells n)
+    # the canonical texts are parametrised by the decimal texts of the three integers: ANY texts in -?[0-9]+, which is where str(int) lies
+    # (range_serializer's unit proves that it writes str(start), str(stop), str(step) there and that str(n) spells n)
     sa, sb, sc_ = z3.String("str(start)"), z3.String("str(stop)"), z3.String("str(step)")
+    x0 = ctx.fresh("any text", S)   # proved once for an arbitrary text while the path has no other hypotheses; instantiated where needed
+    for ch, word in ((",", "comma"), (" ", "blank")):
+        ctx.oblige("lemma", f"a-text-in--?[0-9]+-holds-no-{word}", z3.Implies(z3.InRe(x0, INT_TXT), z3.Not(z3.Contains(x0, z3.StringVal(ch)))), strings=True)
     for t in (sa, sb, sc_):
-        ctx.assume(z3.InRe(t, INT_CANON))
+        ctx.assume(z3.InRe(t, INT_TXT))
+    if kind == "any string":
+        ctx.ghost["no-prune"] = True
     p = z3.StringVal
     pieces = {"range(STOP)": [sb], "range(START, STOP)": [sa, ", ", sb], "range(START, STOP, STEP)": [sa, ", ", sb, ", ", sc_]}.get(kind)
     if kind == "not a string":
@@ -838,7 +861,7 @@ def rd_setup(ctx):
         if not (1 <= len(args) <= 3) or not all(is_z3(x) and x.sort() == I or isinstance(x, int) for x in args):
             _raise("TypeError", "range(not 1-3 integers)")
         xs = [lift(x) for x in args]
-        if len(xs) == 3 and c_.branch(xs[2] == 0, "range-step-is-zero"):
+        if len(xs) == 3 and _fork(c_, xs[2] == 0, "range-step-is-zero"):
             _raise("ValueError", "range(step 0)")
         return _range(*({1: (z3.IntVal(0), xs[0], z3.IntVal(1)), 2: (xs[0], xs[-1], z3.IntVal(1)), 3: tuple(xs)}[len(xs)]))
 
@@ -846,6 +869,23 @@ def rd_setup(ctx):
     consts = {n: compiled(n, pats[n]) for n in RANGE_NAMES if n in pats}
     return Setup(env={"value": value}, calls=calls, consts=consts, hooks={"after_stmt": squeeze_hook(lambda c_: pieces)}, data=dict(kind=kind, texts=(sa, sb, sc_), value=value),
                  watch={"value": value, "str(start)": sa, "str(stop)": sb, "str(step)": sc_})
+
+
+def _cut_groups(ctx, d, tag):
+    """Round-trip scenarios: the groups of the last successful match are the decimal texts the scenario put there (cut lemma: proved, then used)."""
+    ms = ctx.ghost.get("matches", [])
+    texts = {"range(STOP)": d["texts"][1:2], "range(START, STOP)": d["texts"][:2], "range(START, STOP, STEP)": d["texts"]}.get(d["kind"])
+    if not ms or texts is None:
+        return
+    g = ms[-1].attrs["$groups"]
+    gs = [g[i] for i in sorted(k for k in g if isinstance(k, int))]
+    if len(gs) != len(texts):
+        return
+    for x in list(texts) + gs:   # instances of the lemma of rd_setup (the solvers need to be told where to look: the separators do not occur inside the numbers)
+        ctx.assume(z3.Implies(z3.InRe(x, INT_TXT), z3.Not(z3.Contains(x, z3.StringVal(",")))))
+    for n, (x, y) in enumerate(zip(gs, texts)):   # one at a time, left to right: each step lets the solver cancel a longer common prefix
+        ctx.oblige("lemma", f"group-{n + 1}-of-the-match-is-the-decimal-text-the-serializer-wrote-at-position-{n + 1}" + tag, x == y, strings=True)
+        ctx.assume(x == y)
 
 
 def rd_post(ctx, st, result):
@@ -862,6 +902,7 @@ def rd_post(ctx, st, result):
         ctx.oblige("post", "a-value-that-is-not-text-is-not-accepted" + tag, False)
         return
     if kind != "any string":
+        _cut_groups(ctx, d, tag)
         a, b, c = int_of_txt(sa), int_of_txt(sb), int_of_txt(sc_)
         want = {"range(STOP)": (z3.IntVal(0), b, z3.IntVal(1)), "range(START, STOP)": (a, b, z3.IntVal(1)), "range(START, STOP, STEP)": (a, b, c)}[kind]
         ctx.oblige("post", "round-trip:the-canonical-text-of(start,stop,step)-gives-exactly-that-range-back(every integer:negative,zero,step 1 and -1)" + tag,
@@ -897,7 +938,7 @@ RD_TRUSTED = ["str.strip(): exact model over the 29 str.isspace() code points; s
               "\\d is [0-9] in the model; Python also takes other Unicode decimal digits there, and int() reads them as the same digits (not modelled)",
               "int(text) is exact on -?[0-9]+ (SMT-LIB str.to_int), an unknown partial function raising ValueError elsewhere (Python >= 3.11: also ValueError above 4300 digits)",
               "range(a[,b[,c]]) builds that range; ValueError for step 0",
-              "str(int) is 0 or -?[1-9][0-9]* and spells the integer (proved for SMT-LIB str.from_int in range_serializer's unit)"]
+              "str(int) is a text in -?[0-9]+ (assumed) that spells the integer (proved for SMT-LIB str.from_int in range_serializer's unit)"]
 
 
 def rd_raises(ctx, st, exc):
@@ -912,7 +953,208 @@ def rd_raises(ctx, st, exc):
     if kind in ("range(STOP)", "range(START, STOP)"):
         ctx.oblige("raises", "the-canonical-text-of-a-range-is-never-rejected" + tag, False)
     elif kind == "range(START, STOP, STEP)":
-        ctx.oblige("raises", "the-canonical-text-is-rejected-only-for-step-0(not a range)" + tag, d["texts"][2] == z3.StringVal("0"))
+        _cut_groups(ctx, d, tag)
+        ctx.oblige("raises", "the-canonical-text-is-rejected-only-for-step-0(not a range)" + tag, int_of_txt(d["texts"][2]) == 0)
+
+
+# ================================================================================================ timedelta_deserializer
+# Floats are modelled by the real number they hold.  float(text): exact for an integer text of magnitude <= 2**53; for DIGITS.DIGITS the nearest
+# double, i.e. within relative error 2**-53 of the decimal value.  timedelta(days=, hours=, minutes=, seconds=) of such numbers: the sum, rounded to
+# the nearest microsecond (CPython splits every float argument into its integer part - carried exactly in integers - and a fraction; the fractions
+# are summed in a double and rounded half-even at the end: modelled as |result - exact sum| <= 1/2 + 1e-6 microseconds); OverflowError when the
+# normalised day count leaves [-999999999, 999999999].  Both are assumptions about the standard library, listed in `trusted`.
+float_txt_ok = z3.Function("float(str).ok", S, B)
+float_txt_val = z3.Function("float(str)", S, R)
+frac_val = z3.Function("0.DIGITS", S, R)
+DIG = z3.Range("0", "9")
+DIGITS0 = z3.Star(DIG)
+SIGN = z3.Option(z3.Union(z3.Re("+"), z3.Re("-")))
+FLOAT_PLAIN = z3.Concat(SIGN, z3.Union(z3.Concat(DIGITS, z3.Option(z3.Concat(z3.Re("."), DIGITS0))), z3.Concat(z3.Re("."), DIGITS)))   # float literals without exponent
+FLOAT_CHARS = z3.Star(z3.Union(DIG, z3.Re("."), z3.Re("+"), z3.Re("-")))
+TWO53 = 2 ** 53
+US_DAY = 86400 * 10 ** 6
+
+
+def _abs(x):
+    return z3.If(x >= 0, x, -x)
+
+
+def float_model(ctx, args, kwargs):
+    (x,) = args
+    if is_z3(x) and x.sort() == I:
+        return Rec("float", attrs={"val": z3.ToReal(x)})
+    if not (is_z3(x) and x.sort() == S):
+        raise Unsupported("float() of this value")
+    ok = z3.If(z3.InRe(x, FLOAT_CHARS), z3.InRe(x, FLOAT_PLAIN), float_txt_ok(x))
+    if not _fork(ctx, ok, "float(str)-ok"):
+        _raise("ValueError", "float(str)")
+    r = ctx.fresh("float", R)
+    if _fork(ctx, z3.InRe(x, INT_TXT), "float-of-an-integer-text"):
+        v = z3.ToReal(int_of_txt(x))
+        ctx.assume(z3.Implies(_abs(v) <= TWO53, r == v))
+        ctx.assume(_abs(r - v) * TWO53 <= _abs(v))
+        ctx.ghost.setdefault("floats", []).append((x, "int", None, None, r))
+    elif _fork(ctx, z3.InRe(x, z3.Concat(DIGITS, z3.Re("."), DIGITS0)), "float-of-DIGITS.DIGITS"):
+        a, b = ctx.fresh("float.int-part", S), ctx.fresh("float.fraction", S)
+        ctx.assume(z3.And(x == z3.Concat(a, z3.StringVal("."), b), z3.InRe(a, DIGITS), z3.InRe(b, DIGITS0)))
+        ctx.assume(z3.Not(z3.Contains(a, z3.StringVal("."))))   # (digits only)
+        ctx.assume(z3.And(frac_val(b) >= 0, frac_val(b) < 1, z3.Implies(b == z3.StringVal(""), frac_val(b) == 0)))
+        for k in range(1, 10):
+            ctx.assume(z3.Implies(z3.Length(b) == k, frac_val(b) * 10 ** k == z3.ToReal(z3.StrToInt(b))))
+        v = z3.ToReal(z3.StrToInt(a)) + frac_val(b)
+        ctx.assume(_abs(r - v) * TWO53 <= _abs(v))
+        ctx.ghost.setdefault("floats", []).append((x, "frac", a, b, r))
+    else:
+        ctx.assume(r == float_txt_val(x))
+    return Rec("float", attrs={"val": r})
+
+
+def _num(v):
+    if isinstance(v, Rec) and v.cls == "float":
+        return v.attrs["val"]
+    if is_z3(v) and v.sort() == I:
+        return z3.ToReal(v)
+    if isinstance(v, (int, float)) and not isinstance(v, bool):
+        return z3.RealVal(v)
+    _raise("TypeError", "timedelta(unsupported type for a component)")
+
+
+def timedelta_model(ctx, args, kwargs):
+    names = ("days", "seconds", "microseconds", "milliseconds", "minutes", "hours", "weeks")
+    factor = dict(days=US_DAY, seconds=10 ** 6, microseconds=1, milliseconds=1000, minutes=60 * 10 ** 6, hours=3600 * 10 ** 6, weeks=7 * US_DAY)
+    given = dict(zip(names, args))
+    for k, v in kwargs.items():
+        if k not in names or k in given:
+            _raise("TypeError", f"timedelta(unexpected keyword {k})")
+        given[k] = v
+    exact = z3.RealVal(0)
+    for k, v in given.items():
+        exact = exact + _num(v) * factor[k]
+    total = ctx.fresh("timedelta.total-microseconds", I)
+    ctx.assume(_abs(z3.ToReal(total) - exact) <= z3.RealVal("1000001/2000000"))
+    days = ctx.fresh("timedelta.days", I)   # floor division by hand (linear)
+    ctx.assume(z3.And(days * US_DAY <= total, total < (days + 1) * US_DAY))
+    if _fork(ctx, z3.Or(days > 999999999, days < -999999999), "timedelta-out-of-range"):
+        _raise("OverflowError", "timedelta(days out of range)")
+    ctx.event("timedelta", dict(given))
+    return Rec("timedelta", attrs={"total_us": total, "given": dict(given)})
+
+
+TD_KINDS = ["H:MM:SS", "H:MM:SS.UUUUUU", "D days, H:MM:SS", "D days, H:MM:SS.UUUUUU", "any string", "not a string"]
+DIG2, DIG6 = z3.Loop(DIG, 2, 2), z3.Loop(DIG, 6, 6)
+
+
+def td_setup(ctx):
+    kind = TD_KINDS[ctx.choose(len(TD_KINDS), "value-is")]
+    p = z3.StringVal
+    sd, sh, sm, ss, su, plural = z3.String("str(days)"), z3.String("hours"), z3.String("MM"), z3.String("SS"), z3.String("UUUUUU"), z3.String("plural-s")
+    x0 = ctx.fresh("any text", S)
+    for lang, nm, ch, word in ((INT_TXT, "-?[0-9]+", " ", "blank"), (DIGITS, "[0-9]+", ":", "colon"), (DIGITS, "[0-9]+", ".", "dot")):
+        ctx.oblige("lemma", f"a-text-in-{nm}-holds-no-{word}", z3.Implies(z3.InRe(x0, lang), z3.Not(z3.Contains(x0, p(ch)))), strings=True)
+    D, H, M, Sx, Ux = int_of_txt(sd), z3.StrToInt(sh), z3.StrToInt(sm), z3.StrToInt(ss), z3.StrToInt(su)
+    want = None
+    if kind == "not a string":
+        value = [z3.Int("value"), None, z3.Bool("value")][ctx.choose(3, "non-string")]
+    elif kind == "any string":
+        value = z3.String("value")
+        ctx.ghost["no-prune"] = True
+    else:
+        # str(timedelta(days=D, seconds=3600H+60M+S, microseconds=U)) of a normalised duration, as datetime documents it (spec function; see `trusted`)
+        with_days, with_us = kind.startswith("D days"), kind.endswith("UUUUUU")
+        ctx.assume(z3.And(z3.InRe(sh, DIGITS), z3.InRe(sm, DIG2), z3.InRe(ss, DIG2), H < 24, M < 60, Sx < 60))
+        parts = [sh, p(":"), sm, p(":"), ss]
+        total = (H * 3600 + M * 60 + Sx) * 10 ** 6
+        if with_us:
+            ctx.assume(z3.And(z3.InRe(su, DIG6), Ux != 0))
+            parts += [p("."), su]
+            total = total + Ux
+        if with_days:
+            ctx.assume(z3.And(z3.InRe(sd, INT_TXT), D != 0, D <= 999999999, D >= -999999999, plural == z3.If(z3.Or(D == 1, D == -1), p(""), p("s"))))
+            parts = [sd, p(" day"), plural, p(", ")] + parts
+            total = total + D * US_DAY
+        value = z3.Concat(*parts)
+        want = total
+    return Setup(env={"value": value}, calls={"re.match": lambda c, a, k: match_model(c, a[0], a[1], "pattern-matches"), "float": float_model, "int": int_model, "timedelta": timedelta_model},
+                 data=dict(kind=kind, value=value, want=want, texts=dict(days=sd, hours=sh, minutes=sm, seconds=ss, us=su, plural=plural)),
+                 watch={"value": value} if is_z3(value) else {})
+
+
+def _td_cut(ctx, d, tag):
+    """Round trips: the groups matched are the texts str(timedelta) wrote (cut lemmas, left to right), then the parts float() saw."""
+    ms = ctx.ghost.get("matches", [])
+    if not ms:
+        return
+    t, m = d["texts"], ms[-1]
+    g, names = m.attrs["$groups"], m.methods["groupdict"](ctx, m, (), {})
+    p = z3.StringVal
+    for x, ch in ((t["days"], " "), (t["hours"], ":"), (t["minutes"], ":"), (t["seconds"], "."), (t["seconds"], ":")):
+        lang = INT_TXT if ch == " " else DIGITS
+        ctx.assume(z3.Implies(z3.InRe(x, lang), z3.Not(z3.Contains(x, p(ch)))))   # instances of the lemmas proved in setup
+    with_days, with_us = d["kind"].startswith("D days"), d["kind"].endswith("UUUUUU")
+    for nm in (["days"] if with_days else []) + ["hours", "minutes"]:
+        if nm in names:
+            ctx.oblige("lemma", f"the-group-{nm}-is-the-text-written-for-{nm}" + tag, names[nm] == t[nm], strings=True)
+            ctx.assume(names[nm] == t[nm])
+    sec = z3.Concat(t["seconds"], p("."), t["us"]) if with_us else t["seconds"]
+    if "seconds" in names and m.attrs["$tail"] is not None:
+        ctx.oblige("lemma", "the-group-seconds-is-SS[.UUUUUU]-and-nothing-is-left-unmatched" + tag, z3.And(names["seconds"] == sec, m.attrs["$tail"] == p("")), strings=True)
+        ctx.assume(z3.And(names["seconds"] == sec, m.attrs["$tail"] == p("")))
+    for x, shape, a, b, r in ctx.ghost.get("floats", []):
+        if shape == "frac" and with_us:
+            ctx.oblige("lemma", "float()-saw-SS-before-and-UUUUUU-after-the-dot" + tag, z3.And(a == t["seconds"], b == t["us"]), strings=True)
+            ctx.assume(z3.And(a == t["seconds"], b == t["us"]))
+
+
+def td_post(ctx, st, result):
+    d = st.data
+    kind = d["kind"]
+    tag = f"[{kind}]"
+    ok = isinstance(result, Rec) and result.cls == "timedelta"
+    ctx.oblige("post", "the-result-is-a-timedelta" + tag, ok)
+    if not ok:
+        return
+    if kind == "not a string":
+        ctx.oblige("post", "a-value-that-is-not-text-is-not-accepted" + tag, False)
+        return
+    total = result.attrs["total_us"]
+    if kind != "any string":
+        _td_cut(ctx, d, tag)
+        ctx.oblige("post", "round-trip:str(timedelta)-of-every-duration(any days incl. negative,any second,any microsecond)-gives-an-equal-timedelta-back" + tag, total == d["want"])
+        return
+    ms = ctx.ghost.get("matches", [])
+    if not ms:
+        ctx.oblige("post", "accepted=>the-text-was-matched-against-the-duration-syntax" + tag, False)
+        return
+    m = ms[-1]
+    names = m.methods["groupdict"](ctx, m, (), {})
+    ctx.oblige("post", "accepted=>the-whole-text-is-[D day[s], ]H:M:S[.F]:nothing-follows-the-seconds(text outside the syntax is not silently read as a duration)" + tag,
+               m.attrs["$tail"] is not None and m.attrs["$tail"] == z3.StringVal(""), watch={"value": d["value"], "unmatched-tail": m.attrs["$tail"]})
+    given = result.attrs["given"]
+    floats = {id(x): r for x, _, _, _, r in ctx.ghost.get("floats", [])}
+    ok = set(given) == set(names) and {"hours", "minutes", "seconds"} <= set(names) <= {"days", "hours", "minutes", "seconds"}
+    ctx.oblige("post", "accepted=>the-components-are(days?,hours,minutes,seconds),each-one-the-number-at-its-place-in-the-text" + tag,
+               ok and all(isinstance(given[n], Rec) and any(x.eq(names[n]) and r.eq(given[n].attrs["val"]) for x, _, _, _, r in ctx.ghost.get("floats", [])) for n in names))
+
+
+TD_TRUSTED = ["re.match(pattern, s): membership in the pattern's language (the pattern is the string the real code builds); groups by the unique parse of the deterministic fragment, the last repeat before the free tail takes every character of its class (greedy); \\d is [0-9] in the model",
+              "float(text): for texts over [0-9.+-] accepted exactly on [+-]?(D+(.D*)?|.D+); ValueError otherwise; value = the real number held: exact for integer texts up to 2**53, within relative 2**-53 (round to nearest) for D+.D*; texts with other characters: unknown partial function",
+              "datetime.timedelta(days=,hours=,minutes=,seconds=) of floats: the exact sum rounded to the nearest microsecond (|error| <= 1/2 + 1e-6 us, CPython carries integer parts exactly and rounds the summed fractions once); OverflowError when |days| > 999999999 after normalisation; two timedeltas are equal iff their total microseconds are",
+              "str(timedelta) (the serializer registered: str) of a normalised duration (days D, 0 <= seconds < 86400 split as H<24, M<60, S<60, 0 <= microseconds U < 10**6) is '[D day[s], ]H:MM:SS[.UUUUUU]': days part iff D != 0, plural s iff |D| != 1, H unpadded, MM/SS two digits, .UUUUUU (six digits) iff U != 0",
+              "str(int) is a text in -?[0-9]+ spelling the integer; 'day' in value / isinstance as in Python"]
+
+
+def td_raises(ctx, st, exc):
+    d = st.data
+    kind = d["kind"]
+    tag = f"[{kind}]"
+    if kind == "not a string":
+        ctx.oblige("raises", f"a-non-string-is-rejected-with-ValueError(got {exc.cls})" + tag, exc.cls == "ValueError")
+        return
+    ctx.oblige("raises", f"text-that-is-not-a-duration-is-rejected-with-ValueError,never-another-exception-class(got {exc.cls}@{exc.origin})" + tag, ctx.classes.is_subclass(exc.cls, "ValueError"),
+               watch={"value": d["value"]})
+    if kind != "any string":
+        _td_cut(ctx, d, tag)
+        ctx.oblige("raises", f"str(timedelta)-of-a-duration-is-never-rejected(got {exc.cls}@{exc.origin})" + tag, False)
 
 
 # ================================================================================================ the units
@@ -941,6 +1183,7 @@ def units(prop):
                       "nested class statement: the class body's bindings become the class attributes (engine)", "sorted()/str.join evaluated by CPython on the concrete modes of the scenario"]),
         Unit(prop, T + "range_serializer", rs_setup, rs_post, _no_exc, trusted=["f-string formatting of an int is str(int): the decimal text, '-' for negatives (SMT-LIB str.from_int)", "range objects have step != 0"]),
         Unit(prop, T + "range_deserializer", rd_setup, rd_post, rd_raises, expect_cover=("return", "raise:ValueError", "raise:AttributeError"), trusted=RD_TRUSTED),
+        Unit(prop, T + "timedelta_deserializer", td_setup, td_post, td_raises, expect_cover=("return", "raise:ValueError"), trusted=TD_TRUSTED),
         Unit(prop, U + "object_path_serializer", op_setup, op_post, op_raises, expect_cover=("return", "raise:ValueError"), trusted=["get_import_path / import_object: their own units (C14); they raise ValueError / AttributeError / ImportError"]),
         Unit(prop, U + "get_module_var_path", mv_setup, mv_post, _no_exc, trusted=["import_module returns the module; vars(module) is its namespace, iterated in definition order"]),
     ]
